@@ -131,7 +131,7 @@ PROPS = {
         'lean_modules': ['C08', 'C04'],
         'required_theorems': ['C08_cms_update', 'C08_cms_count', 'C08_cms_merge', 'C08_hll_update', 'C08_hll_merge', 'C08_bloom_insert', 'C08_bloom_lookup',
                               'C04_mem_refines_spec', 'C04_redis_refines_spec'],
-        'suites': ['lockstep', 'cms', 'hll', 'bloom', 'topk'],
+        'suites': ['lockstep', 'redistie', 'cms', 'hll', 'bloom', 'topk'],
         'level': 'proof',
         'explanation': 'Lean: the Redis-level models (store, commands, the Lua scripts transcribed) of Count-Min, HyperLogLog and Bloom are proved to simulate the in-memory models step for step (same answers, same abstract state); '
                        'both Top-K variants refine one specification (equal up to ties at the minimum); for cuckoo both bucket kinds satisfy the same bucket laws (C02/C13). '
@@ -145,7 +145,7 @@ PROPS = {
         'lean_modules': ['C09'],
         'required_theorems': ['C09_attach_roundtrip_bloom', 'C09_attach_roundtrip_bloom_params', 'C09_attach_roundtrip_cuckoo', 'C09_attach_roundtrip_cms',
                               'C09_attach_roundtrip_hll', 'C09_attach_roundtrip_topk', 'C09_other_keys_irrelevant'],
-        'suites': ['reattach'],
+        'suites': ['reattach', 'redistie', 'cuckoo'],
         'level': 'proof',
         'explanation': 'Lean: for every Redis constructor the metadata hash it writes (field names and decimal formatting transcribed) is parsed back by the matching FromKey into the same handle (parameters and keys), and attach depends on nothing but that hash; '
                        'all behaviour of a handle is a function of (parameters, keys, store). Suite `reattach` splits histories between the creating handle and handles re-attached at random points, one in a separate OS process, and compares parameters and every answer after every step.',
@@ -156,7 +156,7 @@ PROPS = {
         'required_theorems': ['C10_roundtrip_bloomMem', 'C10_roundtrip_bloomRedis', 'C10_roundtrip_cuckooMem_partial', 'C10_roundtrip_cuckooRedis_partial',
                               'C10_roundtrip_cmsMem', 'C10_roundtrip_cmsRedis', 'C10_roundtrip_hllMem', 'C10_roundtrip_hllRedis_partial',
                               'C10_topk_utf8_partial', 'C10_roundtrip_topkRedis_partial', 'C10_redis_original_untouched', 'C10_bloom_redis_codec'],
-        'suites': ['json'],
+        'suites': ['json', 'jsontie'],
         'level': 'proof',
         'explanation': 'Lean: Export/Import of all ten variants transcribed field by field (mirror records, Redis import scripts incl. the Lua loop bounds); import(export s) restores parameters and payload into an instance holding arbitrary other state, '
                        'the Redis bitmap codec is an involution, imports under new keys write no pre-existing key; the Top-K theorem needs UTF-8-stable names (finding D23) and the Redis HLL one the unpack limit (finding D26). '
